@@ -162,8 +162,12 @@ func writerDatesFor(zone string, tss []int64) (*WriterDates, error) {
 	if err := json.Unmarshal([]byte(lines[len(lines)-1]), &wd); err != nil {
 		return nil, fmt.Errorf("writer worker TZ=%s: bad output: %v", zone, err)
 	}
-	if len(wd.Series) != len(tss) {
-		return nil, fmt.Errorf("writer worker TZ=%s: %d dates for %d timestamps", zone, len(wd.Series), len(tss))
+	uniq := map[int64]bool{}
+	for _, t := range tss {
+		uniq[t] = true
+	}
+	if len(wd.Series) != len(uniq) || len(wd.Tags) != len(uniq) {
+		return nil, fmt.Errorf("writer worker TZ=%s: %d dates for %d timestamps", zone, len(wd.Series), len(uniq))
 	}
 	return &wd, nil
 }
